@@ -81,6 +81,20 @@ def programs(tier="thorough"):
                               Stmt(While(Bin("<", rget("i"), Int(3)), Block([Stmt(Go(Lam([], Block([rset("c", Bin("+", rget("c"), Int(1)))], Unit)))),
                                                                                rset("i", Bin("+", rget("i"), Int(1)))], Unit))),
                               Stmt(While(Bin("<", rget("c"), Int(2)), Block([], Unit))), pr("done")])
+    # `go e` where it is the VALUE of something (no statement follows it): the last expression of a loop body, of a branch that ends a
+    # loop body, of a function body, of a branch whose value is bound, and the whole body of a closure - each must still start
+    # exactly one activation (the child's signal is awaited, so a spawn that got lost never terminates)
+    sig = Lam([], Block([rset("d", Bin("+", rget("d"), Int(1)))], Unit))
+    wait = lambda n: Stmt(While(Bin("<", rget("d"), Int(n)), Block([], Unit)))
+    add("go-as-tail-of-loop-body", [Let("d", Call("ref", Int(0))), Let("i", Call("ref", Int(0))),
+                                    Stmt(While(Bin("<", rget("i"), Int(1)), Block([rset("i", Bin("+", rget("i"), Int(1)))], Go(sig)))), wait(1), pr("done")])
+    add("go-as-tail-of-branch-ending-loop-body", [Let("d", Call("ref", Int(0))), Let("i", Call("ref", Int(0))),
+                                                  Stmt(While(Bin("<", rget("i"), Int(1)), Block([rset("i", Bin("+", rget("i"), Int(1)))],
+                                                                                                 If(Bin("==", rget("i"), Int(1)), Go(sig), Unit)))), wait(1), pr("done")])
+    spawn_tail = ("spawn_tail", [("d", RI)], UNIT, Block([pr("spawning")], Go(sig)))
+    add("go-as-tail-of-function", [Let("d", Call("ref", Int(0))), Stmt(Call("spawn_tail", Var("d"))), wait(1), pr("done")], [spawn_tail])
+    add("go-as-tail-of-bound-branch", [Let("d", Call("ref", Int(0))), Let("u", If(Bin("==", rget("d"), Int(0)), Go(sig), Unit)), wait(1), pr("done")])
+    add("go-as-body-of-closure", [Let("d", Call("ref", Int(0))), Let("f", Lam([], Go(sig))), Stmt(CallV(Var("f"))), wait(1), pr("done")])
     if tier == "quick":          # the two largest state graphs (0.5 M and 3 M states) are explored in the thorough tier
         out = [x for x in out if x["ident"] not in ("c09go:three-activations", "c09go:lost-update")]
     return out
